@@ -448,7 +448,11 @@ class Body:
         if len(ds) == 1 and len(whole) == 1 and depth < 40:
             self._termcache[key] = ("local", l, name)  # cycle guard
             d = whole[0]
-            if d[0] == "stmt":
+            if d[0] == "stmt" and d[3]["rv"]["k"] in ("repeat",) and l in self._mut_borrowed():
+                # a buffer initialised with a filler and then written in place (`let mut b = [0u8; 32]; b[..8].copy_from_slice(x)`):
+                # its value is not its initialiser; keep it as a local so that provenance adds what is written into it
+                t = ("local", l, name)
+            elif d[0] == "stmt":
                 t = self.rvalue_term(d[3]["rv"], depth + 1)
             elif d[0] == "call":
                 t = self.call_term(d[1], d[3], depth + 1)
@@ -458,6 +462,17 @@ class Body:
             t = ("local", l, name)
         self._termcache[key] = t
         return t
+
+    def _mut_borrowed(self):
+        mb = self.__dict__.get("_mutb")
+        if mb is None:
+            mb = set()
+            for b in self.blocks:
+                for st in b["stmts"]:
+                    if st["k"] == "assign" and st["rv"]["k"] == "ref" and st["rv"].get("mut") and not st["rv"].get("fake"):
+                        mb.add(st["rv"]["pl"]["l"])
+            self.__dict__["_mutb"] = mb
+        return mb
 
     def call_term(self, bb, t, depth=0):
         callee = strip_generics(t["resolved"]) if t.get("resolved") and t.get("ikind") == "Item" else strip_generics(t.get("callee", "<indirect>"))
@@ -597,7 +612,59 @@ class Body:
                     r = self.provenance(sub, depth - 1, _seen)
                     for kk in out:
                         out[kk] |= r[kk]
+                # values written into the local in place, through a mutable borrow handed to a call (`buf[..8].copy_from_slice(x)`,
+                # `v.push(x)`, `v.extend(xs)`) or stored through it (`*r = x`)
+                for sub in self.inplace_sources(l):
+                    r = self.provenance(sub, depth - 1, _seen)
+                    for kk in out:
+                        out[kk] |= r[kk]
         return out
+
+    def inplace_sources(self, l):
+        """terms of everything written into local `l` through mutable borrows of it (flow-insensitive)"""
+        cache = self.__dict__.setdefault("_inplace", {})
+        if l in cache:
+            return cache[l]
+        cache[l] = []
+        B = set()
+        for bb, i, dst, rv, sp in self.assignments():
+            if rv["k"] == "ref" and rv.get("mut") and not rv.get("fake") and rv["pl"]["l"] == l and not dst["p"]:
+                B.add(dst["l"])
+        if not B:
+            return cache[l]
+
+        def plain(o):
+            pl = o.get("c") or o.get("m")
+            return pl["l"] if pl is not None and not pl["p"] else None
+        for _ in range(4):
+            n0 = len(B)
+            for bb, i, dst, rv, sp in self.assignments():
+                if dst["p"]:
+                    continue
+                if rv["k"] == "use" and plain(rv["a"]) in B:
+                    B.add(dst["l"])
+                elif rv["k"] == "ref" and rv.get("mut") and rv["pl"]["l"] in B:
+                    B.add(dst["l"])
+            for bl in self.blocks:
+                t = bl["term"]
+                if t["k"] == "call" and bl["id"] in self.reach() and not t["dst"]["p"]:
+                    if any(plain(a) in B for a in t["args"]) and self.local_ty(t["dst"]["l"]).startswith("&mut"):
+                        B.add(t["dst"]["l"])
+            if len(B) == n0:
+                break
+        src = []
+        for bl in self.blocks:
+            t = bl["term"]
+            if t["k"] == "call" and bl["id"] in self.reach():
+                if any(plain(a) in B for a in t["args"]) and not (not t["dst"]["p"] and t["dst"]["l"] in B):
+                    for a in t["args"]:
+                        if plain(a) not in B:
+                            src.append(self.operand_term(a))
+        for bb, i, dst, rv, sp in self.assignments():
+            if dst["l"] in B and dst["p"] and dst["p"][0][0] == "d":
+                src.append(self.rvalue_term(rv))
+        cache[l] = src
+        return src
 
     # ---------------------------------------------------------------- statements helpers
     def assignments(self):
